@@ -211,13 +211,13 @@ pub fn run_check(spec: &PropSpec, tier: &str, base_seed: u64, threads: usize) ->
     let wall_limit = if tier == "thorough" { 900.0 } else { 240.0 };
     let mut merged = BatchOut::default();
     let mut fam_runs: BTreeMap<&'static str, u64> = BTreeMap::new();
-    // (share 0: a family of few, long runs - 16 in the thorough tier, two in the quick tier; they run on
+    // (share 0: a family of few, long runs - 16 in the thorough tier, four in the quick tier; they run on
     // threads of their own next to the other families, because one run takes seconds)
     let mut long_jobs = Vec::new();
     for (fam, share) in &spec.families {
         if *share == 0 {
             let (id, fam, nt) = (spec.id, *fam, spec.nontrivial);
-            let runs = if tier == "thorough" { 16 } else { 2 };
+            let runs = if tier == "thorough" { 16 } else { 4 };
             long_jobs.push((fam, std::thread::spawn(move || crate::batch::run_batch_auto(id, fam, base_seed, runs, runs as usize, wall_limit, nt))));
         }
     }
